@@ -25,6 +25,10 @@ UBSAN_OPTS = "print_stacktrace=1:exitcode=97"
 TSAN_OPTS = "halt_on_error=0:exitcode=0:second_deadlock_stack=1:history_size=4"
 
 
+import ctypes
+_libc = ctypes.CDLL(None, use_errno=True)
+
+
 class HarnessError(Exception):
     pass
 
@@ -146,6 +150,10 @@ def run(cmd, env=None, stdin=b"", timeout=60, cwd=None, cpu=None, mem_mb=None, s
 
     def pre():
         os.setsid()
+        try:
+            _libc.prctl(1, signal.SIGKILL)    # PR_SET_PDEATHSIG: no orphans when the check itself is killed
+        except Exception:
+            pass
         if cpu:
             resource.setrlimit(resource.RLIMIT_CPU, (cpu, cpu + 2))
         if mem_mb:
